@@ -607,13 +607,13 @@ func c07PanicSig(msg string) string {
 
 func c07DescribeCase(c *Case) string {
 	switch c.Kind {
-	case 0, 1:
+	case 0, 1, 4, 5:
 		cf, s, z, ok := c07DecodeConf(c)
 		if !ok {
 			return "undecodable case"
 		}
 		var sb strings.Builder
-		if c.Kind == 0 {
+		if c.Kind == 0 || c.Kind == 4 {
 			seq, _ := c07Sequence(s, z)
 			sb.WriteString("records: ")
 			for i, r := range seq {
@@ -665,7 +665,7 @@ func c07DescribeCase(c *Case) string {
 
 func c07Run(c *Case) (string, []Fail) {
 	switch c.Kind {
-	case 0, 1, 2:
+	case 0, 1, 2, 4, 5:
 		if os.Getenv("C07_INPROCESS") == "1" {
 			return c07RunLocal(c)
 		}
